@@ -48,6 +48,18 @@ func main() {
 		"C05parse": {Gen: genParse, Run: runParse},
 		"C05sess":  {Gen: genSess, Run: runSess},
 		"C05race":  {Gen: genRace, Run: run},
+		// sessions whose first tube is not what checkAuthorization expects (part of C11's check): refused, the
+		// server process survives and still admits a listed key
+		"C11sess": {Gen: func(g *GenCtx) {
+			k0 := bytes.Repeat([]byte{7}, 32)
+			for i := 0; i < 6; i++ {
+				g.Op("new 1 0")
+				g.Op("file %s data %s", hx("alice"), hx(entry(k0)+"\n"))
+				g.Op("badlogin %s", []string{"unrel", "othertype"}[i%2])
+				g.Op("badlogin %s", []string{"othertype", "unrel"}[i%2])
+				g.Op("login %s %x", hx("alice"), k0)
+			}
+		}, Run: runSess},
 	})
 }
 
@@ -343,6 +355,9 @@ func genHist(g *GenCtx, nQuick, nThorough int) {
 			}
 		}
 		next := 1
+		if r.Chance(1, 12) {
+			g.Op("badlogin %s", Pick(r, []string{"unrel", "othertype"}))
+		}
 		for ops := 3 + r.Intn(10); ops > 0; ops-- {
 			u := Pick(r, users)
 			k := Pick(r, p.keys)
@@ -628,6 +643,41 @@ func (w *world) sessionLogin(user string, k keys.DHPublicKey) string {
 	return "listed"
 }
 
+// sessionBadLogin: the client's first tube is not a reliable user-authorization tube (kind `unrel`: an
+// UNRELIABLE tube of that type; `othertype`: a reliable tube of another type).  checkAuthorization refuses.
+func (w *world) sessionBadLogin(kind string) string {
+	a, b := memPair()
+	ch := make(chan bool, 1)
+	go func() {
+		ok, _, _, _ := w.srv.VerifCheckAuthorization(b, &certs.Certificate{Type: certs.Leaf})
+		ch <- ok
+	}()
+	cmux := tubes.Client(a, &tubes.Config{Timeout: 30 * time.Second, Log: logrus.WithField("muxer", "verif-client")})
+	defer func() { go cmux.Stop() }()
+	var err error
+	if kind == "unrel" {
+		var u *tubes.Unreliable
+		u, err = cmux.CreateUnreliableTube(common.UserAuthTube)
+		if err == nil {
+			go u.Write([]byte{0, 1, 'x'})
+		}
+	} else {
+		_, err = cmux.CreateReliableTube(common.ExecTube)
+	}
+	if err != nil {
+		return "client-tube-failed"
+	}
+	select {
+	case ok := <-ch:
+		if ok {
+			return "admitted"
+		}
+		return "reject"
+	case <-time.After(60 * time.Second):
+		return "server-timeout"
+	}
+}
+
 var _ io.Reader = (*memEnd)(nil)
 
 func runWith(in *bufio.Scanner, out *bufio.Writer, session bool) {
@@ -667,6 +717,11 @@ func runWith(in *bufio.Scanner, out *bufio.Writer, session bool) {
 				w.exists[u] = true
 				w.fsys[p] = &fstest.MapFile{Data: d, Mode: 0600}
 				res = "ok"
+			}
+		case len(f) == 2 && f[0] == "badlogin" && (f[1] == "unrel" || f[1] == "othertype"):
+			res = "reject"
+			if session {
+				res = Guard(func() string { return w.sessionBadLogin(f[1]) })
 			}
 		case len(f) == 2 && f[0] == "srvfile":
 			// the authorized_keys file of the account the SERVER runs as (config.UserDirectory()): it
